@@ -86,12 +86,14 @@ func (rs *runState) runC15Case(idx int, cs c15Case) *violationT {
 	}
 	subpkg := func(src, name string) string { return strings.Replace(src, "package s\n", "package "+name+"\n", 1) }
 	type cfg struct {
-		name  string
-		dir   string
-		files map[string]string
-		env   []string
-		pre   func(dir string)
-		runs  int
+		name   string
+		dir    string
+		files  map[string]string
+		env    []string
+		pre    func(dir string)
+		runs   int
+		target string // path of the target's output below o/ (default m_target.go)
+		group  string // outputs are compared within a group (the package clause differs between groups)
 	}
 	cfgs := []cfg{
 		{name: "alone", dir: "a", files: map[string]string{"s/m_target.go": target}},
@@ -101,6 +103,13 @@ func (rs *runState) runC15Case(idx int, cs c15Case) *violationT {
 		{name: "with-unrelated-in-package-test-file", dir: "f", files: map[string]string{"s/m_target.go": target, "s/util_test.go": "package s\n\nimport \"testing\"\n\nfunc TestNothing(t *testing.T) {}\n"}},
 		{name: "with-external-test-package-and-api-test-file", dir: "g", files: map[string]string{"s/m_target.go": target, "s/ext_test.go": "package s_test\n\nimport \"testing\"\n\nfunc TestExt(t *testing.T) {}\n",
 			"s/zz_api_test.go": others[1]}},
+		// the target lives in a package that is processed AFTER another package with several files: compared with the same
+		// sub-package compiled without the others
+		{name: "sub-package-alone", dir: "h", group: "sub", target: "zsub/m_target.go", files: map[string]string{"s/zsub/m_target.go": subpkg(target, "zsub")}},
+		{name: "sub-package-after-a-package-with-two-files", dir: "i", group: "sub", target: "zsub/m_target.go", files: map[string]string{"s/a_first.go": others[0], "s/b_second.go": others[1],
+			"s/zsub/m_target.go": subpkg(target, "zsub")}},
+		{name: "sub-package-after-a-package-with-nothing-to-optimise", dir: "j", group: "sub", target: "zsub/m_target.go", files: map[string]string{
+			"s/a_first.go": "package s\n\nimport . \"github.com/goghcrow/go-co\"\n\nfunc Tiny() Iter[int] {\n\tYield(1)\n\treturn nil\n}\n", "s/zsub/m_target.go": subpkg(target, "zsub"), "s/zsub/z_other.go": subpkg(others[0], "zsub")}},
 		{name: "gomaxprocs-1", dir: "d", files: map[string]string{"s/m_target.go": target, "s/z_last.go": others[0]}, env: []string{"GOMAXPROCS=1"}},
 		{name: "stale-output-and-rerun", dir: "e", files: map[string]string{"s/m_target.go": target}, runs: 2, pre: func(dir string) {
 			// outputs of an earlier run of a DIFFERENT program are present on disk
@@ -108,6 +117,7 @@ func (rs *runState) runC15Case(idx int, cs c15Case) *violationT {
 		}},
 	}
 	outputs := map[string]string{}
+	groupOf := map[string]string{}
 	var order []string
 	for _, c := range cfgs {
 		dir := filepath.Join(base, c.dir)
@@ -136,7 +146,11 @@ func (rs *runState) runC15Case(idx int, cs c15Case) *violationT {
 				rs.mu.Unlock()
 				return nil
 			}
-			b, err := os.ReadFile(filepath.Join(dir, "o", "m_target.go"))
+			tp := c.target
+			if tp == "" {
+				tp = "m_target.go"
+			}
+			b, err := os.ReadFile(filepath.Join(dir, "o", tp))
 			if err != nil {
 				return &violationT{Kind: "text", Signature: "missing-output:" + c.name, What: fmt.Sprintf("configuration %s: no output file for the target", c.name)}
 			}
@@ -145,6 +159,7 @@ func (rs *runState) runC15Case(idx int, cs c15Case) *violationT {
 				key = fmt.Sprintf("%s#%d", c.name, i+1)
 			}
 			outputs[key] = string(b)
+			groupOf[key] = c.group
 			order = append(order, key)
 		}
 		if _, err := os.Stat(filepath.Join(dir, "o_tmp")); err == nil && c.name != "stale-output-and-rerun" {
@@ -153,7 +168,14 @@ func (rs *runState) runC15Case(idx int, cs c15Case) *violationT {
 		}
 	}
 	ref := outputs[order[0]]
+	firstOf := map[string]string{}
+	for _, k := range order {
+		if _, ok := firstOf[groupOf[k]]; !ok {
+			firstOf[groupOf[k]] = k
+		}
+	}
 	for _, k := range order[1:] {
+		ref := outputs[firstOf[groupOf[k]]]
 		if outputs[k] != ref {
 			i := 0
 			for i < len(ref) && i < len(outputs[k]) && ref[i] == outputs[k][i] {
@@ -171,7 +193,7 @@ func (rs *runState) runC15Case(idx int, cs c15Case) *violationT {
 				return s[lo:e]
 			}
 			return &violationT{Kind: "text", Signature: "bytes-differ:" + k,
-				What:   fmt.Sprintf("generated file of the same source differs between configuration %q and %q at byte %d: %q vs %q", order[0], k, i, hi(ref), hi(outputs[k])),
+				What:   fmt.Sprintf("generated file of the same source differs between configuration %q and %q at byte %d: %q vs %q", firstOf[groupOf[k]], k, i, hi(ref), hi(outputs[k])),
 				Output: ref, Extra: map[string]any{"other_output": outputs[k]}}
 		}
 	}
@@ -207,7 +229,7 @@ func countStmts(p *Program, kinds ...string) int {
 func init() {
 	checks["C15"] = &checkT{run: func(rs *runState) {
 		rs.rule("a target file (6 programs of the range/delegation/scoping profiles: many sequential and nested range loops and function literals, so unique-name generation and comment attachment are exercised) " +
-			"compiled in production mode in 8 configurations: alone; beside an unrelated in-package _test.go file; beside an external-test-package file and a _test.go file that uses the API; among 2 other files sorting before/after; among other files and 2 sub-packages in a differently named directory; GOMAXPROCS=1; " +
+			"compiled in production mode in 11 configurations: alone; in a sub-package alone / after a package with two files / after a package with nothing to optimise and beside another file; beside an unrelated in-package _test.go file; beside an external-test-package file and a _test.go file that uses the API; among 2 other files sorting before/after; among other files and 2 sub-packages in a differently named directory; GOMAXPROCS=1; " +
 			"with stale o/ and o_tmp/ content of a different program present, twice in a row; oracle: the bytes of the target's generated file are identical in all configurations, no helper identifier " +
 			"is defined twice in one function, the output builds; non-trivial = the target has >= 2 range loops in one program and the other files contain range loops; distinct by hash(target)")
 		n := rs.vol(16, 300)
@@ -260,7 +282,7 @@ func init() {
 				for _, p := range cs.Target {
 					h += progHash(p)
 				}
-				rs.eval(h, ranges >= 2 && otherRanges >= 1, "configurations:8")
+				rs.eval(h, ranges >= 2 && otherRanges >= 1, "configurations:11")
 				if i%7 == 0 {
 					src, _ := renderFile("S", "s", cs.Style, cs.Target[:1], nil)
 					rs.sample(map[string]any{"target_first_program": src, "other_files": len(cs.Others), "max_range_like_loops_in_one_program": ranges})
@@ -432,6 +454,8 @@ func (rs *runState) runC16Layout(idx int, lay c16Layout) *violationT {
 		"func ShrinkB(xs []string) Iter[string] {\n\tfor i, x := range xs {\n\t\tswitch {\n\t\tcase i == 0:\n\t\t\tYield(\"first:\" + x)\n\t\tcase len(x) > 3:\n\t\t\tYield(\"long:\" + x)\n\t\tdefault:\n\t\t\tYield(x)\n\t\t}\n\t}\n\tYieldFrom(ShrinkC(len(xs)))\n\treturn nil\n}\n\n" +
 		"func ShrinkC(n int) Iter[string] {\n\tfor n > 0 {\n\t\tn--\n\t\tYield(\"c\")\n\t}\n\treturn nil\n}\n")
 	shrinkShort := coHeader("package " + pkgName + "\n\nimport . \"github.com/goghcrow/go-co\"\n\nfunc ShrinkA(n int) Iter[int] {\n\tYield(n)\n\treturn nil\n}\n")
+	// a file that is compiled with the co tag and uses the API but is NOT named *_co.go: not an input of the tool
+	files[pkgDir+"cotagged.go"] = "//go:build co\n\npackage " + pkgName + "\n\nimport . \"github.com/goghcrow/go-co\"\n\nfunc CoTagOnly(n int) Iter[int] {\n\tfor i := 0; i < n; i++ {\n\t\tYield(i)\n\t}\n\treturn nil\n}\n"
 	files[pkgDir+"shrink_co.go"] = shrinkLong
 	expected[pkgDir+"shrink.go"] = true
 	// directive comments on bystander declarations of a processed file (go:embed needs its directive to keep the value;
@@ -830,6 +854,63 @@ $GEN{$NF(n int, g int)}{int}{
 	}
 	$RET
 }`},
+	// the loop BODY advances other generators and mostly completes without yielding itself
+	{name: "body-delegates-to-mostly-empty-generators", decls: `
+$GEN{$NMaybe(i int, g int)}{int}{
+	if i%g == 0 {
+		$YIELD{i}
+	}
+	$RET
+}
+
+$GEN{$NF(n int, g int)}{int}{
+	for i := 0; i < n; i++ {
+		tr.Probe(1)
+		$YFROM{$NMaybe(i, g)}
+	}
+	$RET
+}`},
+	{name: "body-ranges-over-another-generator-with-filter", decls: `
+$GEN{$NPair(i int)}{int}{
+	$YIELD{i}
+	$YIELD{-i - 1}
+	$RET
+}
+
+$GEN{$NF(n int, g int)}{int}{
+	i := 0
+	for i < n {
+		tr.Probe(1)
+		for v := range $RANGE{$NPair(i)} {
+			if v >= 0 && v%g == 0 {
+				$YIELD{v}
+			}
+		}
+		i++
+	}
+	$RET
+}`},
+	{name: "body-advances-another-generator-by-hand", decls: `
+$GEN{$NNat(n int)}{int}{
+	for i := 0; i < n; i++ {
+		$YIELD{i}
+	}
+	$RET
+}
+
+$GEN{$NF(n int, g int)}{int}{
+	src := $NNat(n)
+	for i := 0; i < n; i++ {
+		tr.Probe(1)
+		if !src.MoveNext() {
+			break
+		}
+		if v := src.Current(); v%g == 0 {
+			$YIELD{v}
+		}
+	}
+	$RET
+}`},
 	{name: "filter-over-iterator", decls: `
 $GEN{$NSrc(n int)}{int}{
 	for i := 0; i < n; i++ {
@@ -866,7 +947,7 @@ const stackSlackT = 24
 
 func init() {
 	checks["C17"] = &checkT{run: func(rs *runState) {
-		rs.rule("compiled loops {3-clause with continue, 3-clause with if, condition-only, infinite with break and a yielding switch, range over int, range over slice, nested loops, init-less inner loops that the optimiser turns into one re-run loop value (2 and 3 levels), filter over another iterator} " +
+		rs.rule("compiled loops {3-clause with continue, 3-clause with if, condition-only, infinite with break and a yielding switch, range over int, range over slice, nested loops, init-less inner loops that the optimiser turns into one re-run loop value (2 and 3 levels), loop bodies that advance OTHER generators (delegation to mostly empty generators, nested range over a generator with a filter, MoveNext by hand), filter over another iterator} " +
 			"x gap g in {1,10,100,1000,10000} (thorough: 10^6) x delegation depth {0,1,4,8}; a depth probe (runtime.Callers) runs in every iteration; oracle: deepest probe - first probe <= 24 frames independent of g, " +
 			"and the yielded values equal the reference's; non-trivial = g >= 100; distinct by (shape, g, depth)")
 		gaps := []int{1, 10, 100, 1000, 10000}
@@ -1014,6 +1095,7 @@ func init() {
 			},
 			nontrivial: func(p *Program, r *Record) bool { return r.Events >= 4 },
 		}
+		spec.fixed = iteratorValuePrograms()
 		rs.exh = append(rs.exh, "per program: all schedules of length 8 over 2 iterators (256) or of length 5 over 3 iterators (243)")
 		rs.runDiff(spec)
 		par := &diffSpec{
